@@ -29,6 +29,22 @@ WATCHDOG_S = {"quick": 900, "thorough": 7200}
 VERIF = os.path.dirname(os.path.dirname(os.path.dirname(os.path.abspath(__file__))))
 
 
+def _iadd_copy(nav):
+    import copy as _copy
+
+    x = _copy.copy(nav)
+    x += ["more"]
+    return x
+
+
+def _extend_into(nav):
+    from ..loader import ht
+
+    x = ht.TagList("lead")
+    x.extend(nav)
+    return x
+
+
 # ------------------------------------------------------------------ battery (child side imports the library)
 def battery(seed, n):
     from . import c01, c11, c13, c16, c20, c03
@@ -36,7 +52,7 @@ def battery(seed, n):
 
     rng = random.Random("battery/%d" % seed)
     items = []
-    kinds = ["tree", "doc", "doc", "textdoc", "headc", "jsx", "css", "classes", "attrs", "typed_attrs", "jsonmode", "retry", "shared", "longtwin", "dyninst", "bigrepr", "headc_list", "headc_big", "doccopy", "root_reuse", "saved_then_rendered", "unordered"]
+    kinds = ["tree", "doc", "doc", "textdoc", "headc", "jsx", "css", "classes", "attrs", "typed_attrs", "jsonmode", "retry", "shared", "longtwin", "dyninst", "bigrepr", "headc_list", "headc_big", "doccopy", "root_reuse", "saved_then_rendered", "unordered", "shared_fragment"]
     for i in range(n):
         k = kinds[i % len(kinds)]
         if k == "tree":
@@ -87,6 +103,9 @@ def battery(seed, n):
         elif k == "bigrepr":
             # short-lived self-rendering objects with large markup, one after the other (addresses get re-used)
             items.append((k, {"sizes": [rng.choice([100, 2047, 2048, 3000, 5000, 70000]) for _ in range(rng.randint(3, 8))], "n": i}))
+        elif k == "shared_fragment":
+            # a fragment shared by many pages; other pages are put together FROM it (sum, +, *, slices, copies) and then completed
+            items.append((k, {"n": i, "how": rng.sample(["sum1", "sum2", "zero_plus", "plus_empty", "empty_plus", "times1", "slice", "taglist", "copy", "iadd_copy", "tagify", "extend_into"], rng.randint(3, 8))}))
         elif k == "unordered":
             # unordered collections of strings where a value is expected: accepted or refused, the outcome is the same in every process
             items.append((k, {"tokens": rng.sample(["btn", "btn-primary", "active", "shadow", "rounded", "w-100", "mt-3", "lead", "x", "y"], rng.randint(4, 8)), "n": i}))
@@ -170,6 +189,28 @@ def _run_item(kind, r):
             except Exception as e:
                 return {"html": "raised " + type(e).__name__}
         return {"html": _d(str(t) + "|" + t.render()["html"] + "|" + str(ht.TagList(o, "x").tagify()))}
+    if kind == "shared_fragment":
+        import copy as _copy
+
+        nav = ht.TagList(ht.tags.a("home %d" % (r["n"] % 3), href="/"), ht.head_content(ht.tags.title("site")))
+        page = lambda: ht.HTMLDocument(ht.div(nav, "index")).render()   # noqa: E731
+        first = page()
+        makers = {"sum1": lambda: sum([nav]), "sum2": lambda: sum([nav, ht.TagList("about")]), "zero_plus": lambda: 0 + nav, "plus_empty": lambda: nav + [],
+                  "empty_plus": lambda: [] + nav, "times1": lambda: nav * 1, "slice": lambda: nav[:], "taglist": lambda: ht.TagList(nav), "copy": lambda: _copy.copy(nav),
+                  "iadd_copy": lambda: _iadd_copy(nav), "tagify": lambda: nav.tagify(), "extend_into": lambda: _extend_into(nav)}
+        kinds_ = []
+        for how in r["how"]:
+            try:
+                other = makers[how]()
+                kinds_.append(type(other).__name__)
+                if isinstance(other, ht.TagList):
+                    other.append(ht.tags.footer("page footer"), ht.head_content(ht.tags.meta(name="x", content="y")))
+                    str(other)
+            except Exception as e:
+                kinds_.append("raised " + type(e).__name__)
+        again = page()
+        ok = again["html"] == first["html"] and [d.name for d in again["dependencies"]] == [d.name for d in first["dependencies"]] and len(nav) == 2
+        return {"html": _d(first["html"] + "|" + ",".join(kinds_)), "same_when_rendered_again": ok}
     if kind == "unordered":
         toks = r["tokens"]
         outs = []
@@ -685,6 +726,17 @@ def run(ctx):
             ctx.violation("head-content-name-not-content-function", "head_content(%r) and head_content(HTML(%r)) render the same but are named differently" % (plain, trusted), {"plain": plain})
         if c_.name == d_.name:
             ctx.violation("head-content-name-collision", "head_content(%r) and head_content(HTML(%r)) render differently but share a name" % (plain, plain), {"plain": plain})
+    # payloads that differ only in a lone surrogate (text read with errors="surrogateescape"): refused, or named apart - never merged
+    for a_s, b_s in (("\udc80", "\udc81"), ("\udc80", "?"), ("\ud800", "\ufffd"), ("\udfff", "\udc00")):
+        names_ = []
+        for ch in (a_s, b_s):
+            try:
+                names_.append(ht.head_content(ht.HTML("<style>.a::before{content:'%s'}</style>" % ch)).name)
+            except UnicodeError:
+                names_.append(None)
+        ctx.count("monitor.headcontent_pairs")
+        if names_[0] is not None and names_[0] == names_[1]:
+            ctx.violation("head-content-name-collision", "head contents that differ in one character (%r / %r) share the name %s" % (a_s, b_s, names_[0]), {"chars": [ascii(a_s), ascii(b_s)]})
     ctx.notes["headcontent_corpus"] = corpus
     ctx.notes["headcontent_distinct_contents"] = len(by_html)
     # equal content included once per document, different content never merged
